@@ -708,7 +708,47 @@ func (p c05) supplied(c *core.Ctx) {
 // lazyCandidates: a single-valued pointer point with several same-typed lazy candidates: the one the
 // narrowing rules select is created and initialised for the holder, the others - lazy, needed by nobody
 // - are not.
+// lazyPrimary: several lazy candidates of one interface point, one of them the (only) Primary: that one is
+// what the eager holder needs - it is initialised (before the holder), the others stay untouched.
+func (p c05) lazyPrimary(c *core.Ctx) {
+	g := world.NewG(c.Rng)
+	prim := g.AddNode(11, []string{"", g.FreshName(0)}[c.Rng.Intn(2)]) // T11: IA, lazy, Primary, Init+Aps
+	var others []int
+	others = append(others, g.AddNode(8, "")) // T08: IA, lazy, not primary, unnamed
+	for x := 0; x < c.Rng.Intn(3); x++ {
+		others = append(others, g.AddNode(8, g.FreshName(x+2)))
+	}
+	h := g.AddNode([]int{2, 13}[c.Rng.Intn(2)], g.FreshName(9)) // an eager IB that is no IA
+	g.SetTag(h, []string{"IA0", "IA1"}[c.Rng.Intn(2)], "wire", "")
+	g.ShuffleOrders()
+	r := world.Start(g.Sc, world.Options{})
+	c.Count("starts", 1)
+	c.Count("lazy_candidate_starts", 1)
+	detail := failDetail(g.Sc, r, map[string]any{"events": renderEvents(r.Log.Events(), 60)})
+	if r.Outcome() != "ok" {
+		c.Fail("", "start did not succeed: "+core.Short(r.OutcomeDetail(), 300), detail)
+		return
+	}
+	pn := g.Sc.Nodes[prim].DisplayName()
+	if countEvents(r, "init", pn) != 1 || countEvents(r, "aps", pn) != 1 {
+		c.Fail("", fmt.Sprintf("the lazy Primary candidate %q of the eager holder's interface point was initialised %d/%d times (Init/AfterPropertiesSet), expected once each", pn, countEvents(r, "init", pn), countEvents(r, "aps", pn)), detail)
+		return
+	}
+	for _, o := range others {
+		on := g.Sc.Nodes[o].DisplayName()
+		if n := countEvents(r, "init", on) + countEvents(r, "aps", on); n > 0 {
+			c.Fail("", fmt.Sprintf("lazy component %q was initialised (%d callbacks) although no created component needs it: the point went to the Primary candidate", on, n), detail)
+			return
+		}
+	}
+	c.Nontrivial("lazyprim|" + g.Sc.GraphSig())
+}
+
 func (p c05) lazyCandidates(c *core.Ctx) {
+	if c.Rng.Intn(2) == 0 {
+		p.lazyPrimary(c)
+		return
+	}
 	g := world.NewG(c.Rng)
 	lt := 7                  // T07: lazy, Init and AfterPropertiesSet (the palette has pointer slots for types 0..7)
 	sel := g.AddNode(lt, "") // the unnamed one is preferred
